@@ -1,0 +1,88 @@
+//go:build verif
+
+package wal
+
+import (
+	"bytes"
+	"io"
+
+	"github.com/youzan/ZanRedisDB/wal/walpb"
+)
+
+// Instrumentation for the verification harness (/verif). Built only with -tags verif.
+
+// VerifSyncHook, when set, is called after every successful fdatasync of the tail segment
+// with the tail's file name and the file offset that the sync covers.
+var VerifSyncHook func(tail string, off int64)
+
+func verifSyncPoint(w *WAL, err error) {
+	if VerifSyncHook == nil || err != nil || w.tail() == nil {
+		return
+	}
+	off, serr := w.tail().Seek(0, io.SeekCurrent)
+	if serr != nil {
+		return
+	}
+	VerifSyncHook(w.tail().Name(), off)
+}
+
+// VerifTail returns the tail segment's file name and its current file offset
+// (bytes handed to the OS so far; bytes still in the page writer are not counted).
+func VerifTail(w *WAL) (string, int64) {
+	w.mu.Lock()
+	defer w.mu.Unlock()
+	if w.tail() == nil {
+		return "", -1
+	}
+	off, err := w.tail().Seek(0, io.SeekCurrent)
+	if err != nil {
+		return w.tail().Name(), -1
+	}
+	return w.tail().Name(), off
+}
+
+// VerifConsts exports the package's unexported constants.
+func VerifConsts() map[string]int64 {
+	return map[string]int64{
+		"metadataType":         metadataType,
+		"entryType":            entryType,
+		"stateType":            stateType,
+		"crcType":              crcType,
+		"snapshotType":         snapshotType,
+		"minSectorSize":        minSectorSize,
+		"frameSizeBytes":       frameSizeBytes,
+		"walPageBytes":         walPageBytes,
+		"maxWALEntrySizeLimit": maxWALEntrySizeLimit,
+		"bufSize":              bufSize,
+	}
+}
+
+// VerifDecoded is one record returned by the decoder.
+type VerifDecoded struct {
+	Type int64
+	Crc  uint32
+	Data []byte
+}
+
+// VerifDecode runs the package's decoder over in-memory segment images exactly as
+// ReadAll/Repair drive it (crc records re-seed the running crc) and returns the records
+// decoded before the first error, that error (io.EOF at a clean end), and lastValidOff.
+func VerifDecode(segs ...[]byte) (recs []VerifDecoded, err error, lastOff int64) {
+	rs := make([]io.Reader, len(segs))
+	for i := range segs {
+		rs[i] = bytes.NewReader(segs[i])
+	}
+	d := newDecoder(rs...)
+	rec := &walpb.Record{}
+	for err = d.decode(rec); err == nil; err = d.decode(rec) {
+		if rec.Type == crcType {
+			crc := d.crc.Sum32()
+			if crc != 0 && rec.Validate(crc) != nil {
+				return recs, ErrCRCMismatch, d.lastOffset()
+			}
+			d.updateCRC(rec.Crc)
+		}
+		recs = append(recs, VerifDecoded{rec.Type, rec.Crc, append([]byte(nil), rec.Data...)})
+	}
+	return recs, err, d.lastOffset()
+}
